@@ -25,6 +25,8 @@ import (
 // Paser represents a Redis serialization protocol (RESP) parser.
 type Parser struct {
 	reader io.Reader
+	// depth is the number of arrays being parsed around the current position.
+	depth int
 }
 
 // NewParserWithReader returns a new parser for the specified reader.
